@@ -67,7 +67,10 @@ def timersDigest (s : Sim) : String :=
 
 /-- candidate addresses whose cell may differ: everything in the access log plus `extra` -/
 def changed (before after : Sim) (cands : List W) : List (W × Word) :=
-  let cs := (cands.map (·.toNat)).toArray.qsort (· < ·) |>.toList.eraseDups
+  let sorted := (cands.map (·.toNat)).toArray.qsort (· < ·)
+  let cs := (sorted.foldl (fun (acc : List Nat) n => match acc with
+    | [] => [n]
+    | m :: _ => if m = n then acc else n :: acc) []).reverse
   cs.filterMap (fun n =>
     let a : W := BitVec.ofNat 16 n
     if before.memAt a != after.memAt a then some (a, after.memAt a) else none)
@@ -172,7 +175,7 @@ def parseBlocks (spec : String) : Option (List (W × List (Option W))) :=
 def sortBlocks (bs : List (W × List (Option W))) : List (W × List (Option W)) :=
   (bs.toArray.qsort (fun a b => a.1.toNat < b.1.toNat)).toList
 
-def fuelBig : Nat := 100000000
+def fuelBig : Nat := 2000000
 
 def setLock (s : Sim) (which : String) (v : Bool) : Option Sim :=
   match which with
@@ -344,12 +347,23 @@ def cmdSimCtx (c : SimCtx) (t : List String) : SimCtx × String :=
   | ["state"] => digest c "ok" none
   | ["obs", how] =>
     if how != "take" && how != "peek" then bad else
-    let v := (s.observer.toArray.qsort (fun a b => a.1.toNat < b.1.toNat)).toList
-    let parts := v.map (fun p => s!"{hex16 p.1}:{p.2}")
+    let v := s.observer.toList
+    let parts := v.map (fun p => s!"{hexN 4 p.1}:{p.2}")
     let out := if parts.length ≤ 24 then s!"[{",".intercalate parts}]"
-      else s!"#{parts.length}:{hexN 16 (v.foldl (fun h p => fnvStep h (UInt64.ofNat (p.1.toNat * 256 + p.2))) fnvInit).toNat}"
-    let s' := if how == "take" then { s with observer := [] } else s
+      else s!"#{parts.length}:{hexN 16 (v.foldl (fun h p => fnvStep h (UInt64.ofNat (p.1 * 256 + p.2))) fnvInit).toNat}"
+    let s' := if how == "take" then { s with observer := {} } else s
     ({ c with sim := s' }, out)
+  | ["memhash", "u"] =>
+    let h := (List.range (0xFE00 - 0x3000)).foldl (fun h i =>
+      let w := s.memAt (BitVec.ofNat 16 (0x3000 + i))
+      fnvStep h (UInt64.ofNat (w.data.toNat * 65536 + w.init.toNat))) fnvInit
+    (c, hexN 16 h.toNat)
+  | ["known"] =>
+    let osAddrs : List Nat := Gen.osBlocks.flatMap (fun b => (List.range b.2.length).map (fun i => (b.1.toNat + i) % 65536))
+    let bad := (List.range 0xFE00).foldl (fun n a =>
+      let w := s.memAt (BitVec.ofNat 16 a)
+      if !osAddrs.contains a && !(w.data == c.fill && w.init == 0) then n + 1 else n) 0
+    (c, s!"known bad={bad}")
   | ["memhash"] =>
     let h := s.mem.toArray.foldl (fun h w => fnvStep h (UInt64.ofNat (w.data.toNat * 65536 + w.init.toNat))) fnvInit
     (c, hexN 16 h.toNat)
@@ -361,6 +375,13 @@ def cmdSimCtx (c : SimCtx) (t : List String) : SimCtx × String :=
 
 def cmdSim (slot : Option SimCtx) (t : List String) : Option SimCtx × String :=
   match t with
+  | ["newseed", st, r, d, i, _seed] =>
+    -- the seeded image itself follows as rawmem/rawreg lines (StdRng is not modelled)
+    match pb st, pb r, pb d, pb i with
+    | some st, some r, some d, some i =>
+      let flags : Flags := { strict := st, realTraps := r, debugFrames := d, ignorePriv := i }
+      (some { sim := newSim flags (fun _ => 0) Gen.osBlocks false, fill := 0 }, "ok")
+    | _, _, _, _ => (slot, "bad-op")
   | ["new", st, r, d, i, fill] =>
     match pb st, pb r, pb d, pb i, parseW fill with
     | some st, some r, some d, some i, some fill =>
